@@ -155,6 +155,9 @@ def work(ctx, tier):
             attrs["status"] = pick()
         if mode in ("code", "both", "all"):
             attrs["code"] = pick()
+        if mode == "both" and rng.random() < 0.3:
+            attrs["status"] = rng.choice([0, False, "", 0.0, -0.0, (), [], {}, b"", frozenset()])
+            attrs["code"] = rng.choice(list(TABLE))
         if mode in ("status_code", "all"):
             attrs["status_code"] = pick()
         if mode == "garbage":
@@ -211,6 +214,17 @@ def work(ctx, tier):
                         expect = ("names", None)
                 elif not set_st and not set_co:
                     expect = ("names", None)
+                elif set_st and set_co and not st and not isinstance(co, bool):
+                    # documented as "err.status or err.code": a falsy status (0, False, "", 0.0, empty container) defers to code
+                    v = co
+                    ctx.cnt["falsy_status_defers_to_code"] += 1
+                    if is_plain_int(v):
+                        if v in TABLE:
+                            expect = ("table", TABLE[v])
+                        elif v != 422:
+                            expect = ("names", None)
+                    else:
+                        expect = ("names", None)
                 if expect is not None:
                     if expect[0] == "table":
                         ctx.cnt["layer:table"] += 1
@@ -347,6 +361,7 @@ def conclude(ctx):
         "sql:bracket": (ctx.cnt["sql:bracket"], 50),
         "sql:free text": (ctx.cnt["sql:free text"], 50),
         "systematic_table_cases": (ctx.cnt["systematic_table_cases"], 500),
+        "falsy_status_defers_to_code": (ctx.cnt["falsy_status_defers_to_code"], 200),
     }
     absent = [k for k in OPTIONAL if not ctx.cnt.get(f"optional_library_present:{k}")]
     if absent:
@@ -363,7 +378,7 @@ def conclude(ctx):
         floors=floors,
         assumptions=[
             "bools are ints in Python: for bool-valued status/code only totality is asserted",
-            "when both status and code are set only totality and membership in {table(status), table(code), name-based, UNKNOWN} are asserted (the documentation says 'status or code')",
+            "when both status and code are set and status is truthy only totality and membership in {table(status), table(code), name-based, UNKNOWN} are asserted; a falsy status defers to code (the documentation says 'err.status or err.code')",
             "422 is documented by default_classifier's docstring but not by the property: not asserted either way",
             "optional libraries (aiohttp, grpc, botocore, redis, urllib3) are not installed here: only the documented fallback to default_classifier is exercised; absent: " + ", ".join(absent),
         ],
